@@ -145,6 +145,8 @@ def scenario(rng, kind):
             prog.append("stopace %d %d" % (s, rng.choice([1, 2, 5])))
     prog.append("init")
     nacq = rng.choice([1, 1, 2, 3]) if kind != "basic" else rng.choice([1, 2])
+    if kind == "fault":
+        nacq = rng.choice([1, 2, 2, 3, 3])      # "a later fault-free acquisition is complete and correct" needs later acquisitions
     meta = dict(kind=kind, cams=cams, ring=ring, streams=streams, acqs=[])
     mon_started = False
     mon_streams = set()
@@ -162,7 +164,7 @@ def scenario(rng, kind):
             acq[s] = dict(n=n, avg=avg, delay=delay)
             prog.append("cfg %d cam=%s sto=%s n=%d avg=%d delay=%g" % (s, "AB"[s], "AB"[s], n if n >= 0 else (1 << 40), avg, delay))
         prog.append("configure")
-        if kind == "fault":
+        if kind == "fault" and (a == 0 or rng.random() < 0.5):
             s = rng.choice(streams)
             n = acq[s]["n"]
             r = rng.random()
@@ -418,7 +420,9 @@ def oracle(prog, lines, meta):
         return "protocol-broken-after-configure-while-running-" + ("other-devices" if switched[0] else "same-devices")
 
     def add8(key, k, msg):
-        if key in tainted:
+        # once acquire_configure has been called on a running stream the run is polluted: workers may keep using devices that were
+        # closed, swapped or re-armed under them, so every later device-protocol verdict of the run is classified with that call
+        if key in tainted or tainted:
             add("C08", reconf_key(), msg + " [" + k + "; after acquire_configure was called while the stream was running]")
         else:
             add("C08", k, msg)
@@ -626,15 +630,27 @@ def oracle(prog, lines, meta):
             if a.reconf:
                 continue          # re-configured while running: outside the scenario of C04/C06/C07/C09; C08's verdicts are per device
             cam = a.cam
+            prev = hist[s][ai - 1] if ai > 0 else None
+            after_fault = prev is not None and (prev.sto_fail or prev.cam_fail or prev.start_ok is False)
+            after_abort = prev is not None and prev.aborted
+
+            def data(key, msg, a=a, after_fault=after_fault, after_abort=after_abort):
+                """what storage received is wrong: C04; also C09 when the stream's previous acquisition ended in a device fault ("a later
+                fault-free acquisition is complete and correct") and C07 when it was aborted ("no leftovers from the aborted one")"""
+                add("C04", key, msg)
+                if after_fault:
+                    add("C09", key + "-in-run-after-fault", msg + " [the previous acquisition on this stream ended in a device fault]")
+                if after_abort:
+                    add("C07", key + "-in-run-after-abort", msg + " [the previous acquisition on this stream was aborted]")
             want_sz = frame_size(cam["w"], cam["h"], cam["t"])
             avg = a.cfg["avg"] > 1
             ids = [f["id"] for f in a.sto]
             if not avg:
                 # gap-free prefix, in order, of what the camera delivered -- always (C04 safety; C07 prefix at abort)
                 if ids != list(range(len(ids))):
-                    add("C04", "storage-order", "stream %d acquisition %d: storage received frame ids %s (not 0,1,2,.. in order)" % (s, ai, ids[:30]))
+                    data("storage-order", "stream %d acquisition %d: storage received frame ids %s (not 0,1,2,.. in order)" % (s, ai, ids[:30]))
                 if len(ids) > len(a.cam_ok):
-                    add("C04", "storage-extra", "stream %d acquisition %d: storage received %d frames but the camera delivered %d" % (s, ai, len(ids), len(a.cam_ok)))
+                    data("storage-extra", "stream %d acquisition %d: storage received %d frames but the camera delivered %d" % (s, ai, len(ids), len(a.cam_ok)))
                 for f in a.sto:
                     if (f["w"], f["h"], f["t"]) != (cam["w"], cam["h"], cam["t"]):
                         add("C05", "shape-changed", "stream %d: frame %d reached storage with shape %s, camera reported %s" % (s, f["id"], (f["w"], f["h"], f["t"]), (cam["w"], cam["h"], cam["t"])))
@@ -642,17 +658,17 @@ def oracle(prog, lines, meta):
                         add("C05", "size-field", "stream %d: frame %d has bytes_of_frame=%d, expected %d" % (s, f["id"], f["sz"], want_sz))
                     if a.tag is not None and f["id"] < len(a.cam_ok):
                         if f["hw"] != a.cam_ok[f["id"]]:
-                            add("C04", "hardware-id", "stream %d: frame %d carries hardware id %d, camera delivered %d" % (s, f["id"], f["hw"], a.cam_ok[f["id"]]))
+                            data("hardware-id", "stream %d: frame %d carries hardware id %d, camera delivered %d" % (s, f["id"], f["hw"], a.cam_ok[f["id"]]))
                         want = px_hash_c(a.camidx, a.tag, f["hw"], cam["w"], cam["h"], cam["t"])
                         if f["px"] != want:
                             stale = any(px_hash_c(a.camidx, t, f["hw"], cam["w"], cam["h"], cam["t"]) == f["px"] for t in range(1, a.tag))
                             other = px_hash_c(1 - a.camidx, a.tag, f["hw"], cam["w"], cam["h"], cam["t"]) == f["px"]
-                            add("C04" if not stale else "C07", "pixels-stale" if stale else ("streams-mixed" if other else "pixels-altered"),
+                            data("pixels-stale" if stale else ("streams-mixed" if other else "pixels-altered"),
                                 "stream %d acquisition %d: frame %d reached storage with %s pixel bytes" % (s, ai, f["id"], "an earlier acquisition's" if stale else "altered"))
                 # completeness: finite, started, stopped (not aborted), no fault
                 if a.start_ok and a.returned and not a.aborted and not a.cam_fail and not a.sto_fail and a.cfg["n"] < (1 << 39):
                     if len(ids) != a.cfg["n"]:
-                        add("C04", "storage-incomplete", "stream %d acquisition %d: stop returned, %d frames requested, storage received ids %s" % (s, ai, a.cfg["n"], ids[-5:] if ids else []))
+                        data("storage-incomplete", "stream %d acquisition %d: stop returned, %d frames requested, storage received ids %s" % (s, ai, a.cfg["n"], ids[-5:] if ids else []))
             if a.sto_fail and any(True for _ in []):
                 pass
             # C09: nothing appended after the failing append -- checked through order of lines below
@@ -700,7 +716,12 @@ def oracle(prog, lines, meta):
     if deadlock:
         call = in_call or "?"
         tail = [l for l in lines if l.startswith(("  T", "DEADLOCK", "STEPLIMIT"))][:8]
-        if any(a.reconf for s in hist for a in hist[s]):
+        main_line = [l for l in lines if l.startswith("  T0 ")]
+        if not any(l.startswith("DEADLOCK") for l in lines) and main_line and " enabled " in main_line[0]:
+            # the step budget ran out while the client thread itself could still run: a long or unfair schedule, not a call that
+            # does not return -- nothing is concluded from it
+            add("INFO", "steplimit-client-enabled", "step budget exhausted while the client thread was enabled")
+        elif any(a.reconf for s in hist for a in hist[s]):
             add("C08", reconf_key(), "the run did not finish after acquire_configure was called while a stream was running: " + " / ".join(tail))
         else:
             add("LIVE", "hang-in-" + call, "the run did not finish: %s during `%s`: %s" % ("deadlock" if any(l.startswith("DEADLOCK") for l in lines) else "step limit", call, " / ".join(tail)))
